@@ -52,6 +52,8 @@ func runC19(c *Ctx) {
 	c.guard("R19-dup", func() { c19Dup(c, "R19-dup") })
 	r.Rule("R19-pushsrc", "every move pushed on a board outside the board package derives from that position's own move generator (text may select among generated moves but is never pushed itself)", 5)
 	c.guard("R19-pushsrc", func() { c19PushSrc(c, "R19-pushsrc") })
+	r.Rule("R19-counters", "the half-move clock and the full-move number a FEN carries are bounded from above where they are accepted, far enough below the end of int that the increments of a game cannot wrap them", 2)
+	c.guard("R19-counters", func() { c19Counters(c, "R19-counters", -1) })
 	c.guard("R19-err", func() { c19Err(c) })
 	c.guard("R19-square", func() { c19Square(c) })
 	c.guard("R19-index", func() { c19Index(c) })
